@@ -241,3 +241,26 @@ class Run:
             if len(out) >= 60:
                 break
         return out
+
+
+def take_over(run, mod_name: str, prop: str, repo, select, rule: str, label: str, why: str, floor: int) -> None:
+    """Obligations of another check that are necessary conditions of this property as well (judged there, reported here too).
+    A check run as a probe does not take over from others in turn."""
+    import importlib
+    from .model import AnalysisError as _AE
+    if getattr(run, "is_probe", False):
+        return
+    other = importlib.import_module(f"vstatic.rules.{mod_name}")
+    probe = Run(prop, run.tier, run.repo_root)
+    probe.is_probe = True
+    try:
+        other.check(repo, probe)
+    except _AE:
+        pass            # the floor below fails if the obligations were not reached
+    n = 0
+    for o in probe.obligations:
+        if select(o):
+            n += 1
+            run.ob(rule, o["module"], o["scope"], f"{label} ({prop}/{o['rule']}): {o['construct']}", o["ok"],
+                   (o.get("what", "") + " - " + why) if not o["ok"] else "", nontrivial=False)
+    run.floor(rule, f"{label}: obligations taken over from {prop}", n, floor)
